@@ -373,6 +373,7 @@ structure State where
   msgs    : Nat := 0
   tr      : String := ""          -- transport named by `init`
   srv     : Option (Srv × Ov) := none
+  ws      : Ws := {}              -- the server's websocket: `start` ran with `Server.Start`, one `stop` per `Close`
   startedOk : List Bool := []    -- per `srvstart`: did it succeed
   doneL   : List Nat := []       -- starts already declared done
   deriving Repr
@@ -621,7 +622,8 @@ def step (d : State) (toks : List String) : State × String :=
   | ["srv", tr] =>
     if tr = "local" ∨ tr = "tcp" then
       ({ d with srv := some ({ started := true, routerUp := true, wsStarted := true, ovClosed := false,
-                               tsClosed := false, dbOpen := true, dbFile := true }, {}) }, "ok")
+                               tsClosed := false, dbOpen := true, dbFile := true }, {}),
+                tr := tr, ws := wsRun {} [.startLock, .startUnlock] }, "ok")
     else (d, "bad-op")
   | ["srvstart"] =>
     match d.srv with
@@ -706,7 +708,10 @@ def step (d : State) (toks : List String) : State × String :=
       let returned := (hsf.closers.filter (· == .returned)).length
       let (sv', res) := serverClose sv
       let ov' := (ovStep ov .close).getD ov
-      ({ d with srv := some (sv', ov') },
+      let ws' := (List.range n).foldl (fun w _ =>
+        let j := w.stops.length
+        wsRun w [.stopCall, .stopLock j, .handshake j]) d.ws
+      ({ d with srv := some (sv', ov'), ws := ws' },
         s!"returned={returned} ok={match res with | .ok => 1 | .err => 0} insts={(ov'.insts.filter (·.listed)).length} dispatchers={(ov'.insts.filter (·.bound)).length}")
     | _, _ => (d, "bad-op")
   | ["lnstress", tr, stops, dials, lis] =>
@@ -728,12 +733,25 @@ def step (d : State) (toks : List String) : State × String :=
         (d, s!"returned={ns} listening={l.listening} late=0 listen-after={if (llStep l .listen).listening then "listening" else "returned"}")
       else (d, "bad-op")
     | _, _ => (d, "bad-op")
+  | ["srvstate"] =>
+    -- what the server holds on to: the peer-side port (a real port on TCP only), the client-side
+    -- port (the websocket's HTTP server), the database handle and the database file
+    match d.srv with
+    | some (sv, _) =>
+      -- the ports are read once a `Close` has returned (before, what sits on a port number is the
+      -- environment's business: the servers of every in-memory cluster of the machine share numbers)
+      let closed := !d.ws.stops.isEmpty
+      let peer := if d.tr = "tcp" ∧ closed then (if sv.routerUp then "bound" else "free") else "-"
+      let client := if closed then (if d.ws.serving then "bound" else "free") else "-"
+      (d, s!"peer={peer} client={client} ws-start={if d.ws.start == .returned then "returned" else "blocked"} db={if sv.dbOpen then "open" else "closed"} file={if sv.dbFile then "there" else "gone"}")
+    | none => (d, "bad-op")
   | ["srvclose"] =>
     match d.srv with
     | some (sv, ov) =>
       let (sv', res) := serverClose sv
       let ov' := (ovStep ov .close).getD ov
-      ({ d with srv := some (sv', ov') },
+      let j := d.ws.stops.length
+      ({ d with srv := some (sv', ov'), ws := wsRun d.ws [.stopCall, .stopLock j, .handshake j] },
         s!"close={match res with | .ok => "ok" | .err => "err"} insts={(ov'.insts.filter (·.listed)).length} dispatchers={(ov'.insts.filter (·.bound)).length}")
     | none => (d, "bad-op")
   | _ => (d, "bad-op")
